@@ -75,6 +75,44 @@ fn c18_grid(tier: Tier) -> Vec<Program> {
             }
         }
     }
+    // entries of 16 MiB and more whose tail is a long zero run (whole 64 KiB blocks of zeros):
+    // every copy entry point; then an aged, bit-rotten entry (mtime long before the index entry,
+    // untouched by the damage) through every checked entry point
+    for (li, (len, fill)) in [((16usize << 20) + 131072, crate::blob::Fill::ZeroTail), (16 << 20, crate::blob::Fill::Zero)].into_iter().enumerate() {
+        let blobs = vec![Blob { len, salt: 13, fill }, Blob::new(33, 12)];
+        let addr = AddrRef { algo: crate::blob::Algo::Sha256, blob: 0 };
+        let mut steps = vec![Step { op: Op::Write(WriteSpec::simple(Some(0), 0)), fl: if li == 0 { Fl::Sync } else { Fl::Async } }];
+        for fl in [Fl::Sync, Fl::Async] {
+            for checked in [true, false] {
+                for by in [By::Key(0), By::Addr(addr)] {
+                    steps.push(Step { op: Op::Extract { kind: XKind::Copy, checked, by, dest: if checked { Dest::Absent } else { Dest::Existing } }, fl });
+                }
+            }
+        }
+        out.push(Program { keys: keys.clone(), blobs, steps });
+    }
+    for (di, dmg) in [CDamage::FlipBit(77), CDamage::Garbage { off: 100, len: 9, salt: 3 }].into_iter().enumerate() {
+        for days in [2u32, 400] {
+            let blobs = vec![Blob::new(5000, 14), Blob::new(33, 12)];
+            let addr = AddrRef { algo: crate::blob::Algo::Sha256, blob: 0 };
+            let mut steps = vec![
+                Step { op: Op::Write(WriteSpec::simple(None, 0)), fl: Fl::Sync },
+                Step { op: Op::AgeCache { days }, fl: Fl::Sync },
+                Step { op: Op::DamageContent { addr, dmg: dmg.clone() }, fl: Fl::Sync },
+                // the index entry is made long after the content was stored (and rotted)
+                Step { op: Op::IdxInsert { key: 0, fields: IdxFields { integrity: Some(addr), size: Some(5000), time: None, metadata: None, raw_metadata: None } }, fl: if di == 0 { Fl::Sync } else { Fl::Async } },
+            ];
+            for fl in [Fl::Sync, Fl::Async] {
+                for kind in [XKind::HardLink, XKind::Copy, XKind::Reflink] {
+                    for by in [By::Key(0), By::Addr(addr)] {
+                        steps.push(Step { op: Op::Extract { kind, checked: true, by, dest: Dest::Absent }, fl });
+                    }
+                }
+                steps.push(Step { op: Op::Read { key: 0 }, fl });
+            }
+            out.push(Program { keys: keys.clone(), blobs, steps });
+        }
+    }
     out
 }
 
